@@ -7,6 +7,10 @@
  *                                                        ("all", "N-" = from N on, or "i,j,...");  the counter restarts with every wrapped call
  *   VERIF_FAULT_TRACE=1                                  log every counted call:   ftrace<TAB>callidx<TAB>fn<TAB>k<TAB>callsite
  *   VERIF_FAULT_OBJ=<substring>                          object name of the library under test (default "lib-prod")
+ *   VERIF_PROD_INI="<compiled-in path>=<file>"           production mode: the library's fopen of its COMPILED-IN configuration path is served from <file>, and the
+ *                                                        test hook snoopy_configuration_preinit_enableAltConfigFileParsing is shadowed by a no-op, so that the
+ *                                                        production branch of the ctor runs (put this library BEFORE the library under test for that)
+ * Every socket the library connects is logged with its close-on-exec flag:   cloexec<TAB>callidx<TAB>connect<TAB><0|1>
  * Injected faults are logged:   fault<TAB>callidx<TAB>fn<TAB>k<TAB>errno
  * Only calls whose return address lies in the library under test are counted, so the harness's own I/O is never disturbed. */
 #define _GNU_SOURCE
@@ -37,6 +41,26 @@ static const char *objname = "lib-prod";
 
 static struct verif_expect *EX(void) { static struct verif_expect *ex; if (!ex) ex = (struct verif_expect *) dlsym(RTLD_DEFAULT, "verif_expect"); return ex; }
 static void wr(int fd, const char *s) { if (fd >= 0) (void)!write(fd, s, strlen(s)); }
+
+static char prod_from[512], prod_to[1024];
+static int prod_init_done;
+static void prod_init(void) {
+    if (prod_init_done) return;
+    prod_init_done = 1;
+    const char *e = getenv("VERIF_PROD_INI");
+    if (!e) return;
+    const char *eq = strchr(e, '=');
+    if (!eq || (size_t)(eq - e) >= sizeof prod_from) return;
+    memcpy(prod_from, e, (size_t)(eq - e)); prod_from[eq - e] = 0;
+    strncpy(prod_to, eq + 1, sizeof prod_to - 1);
+}
+/* the test hook of the library: forwarded unless production mode is on */
+void snoopy_configuration_preinit_enableAltConfigFileParsing(char *const path) {
+    prod_init();
+    if (prod_from[0]) return;
+    void (*real)(char *const) = (void (*)(char *const)) dlsym(RTLD_NEXT, "snoopy_configuration_preinit_enableAltConfigFileParsing");
+    if (real) real(path);
+}
 
 static int fn_index(const char *n) { for (int i = 0; i < NFN; i++) if (!strcmp(FN[i], n)) return i; return -1; }
 
@@ -90,7 +114,12 @@ static int decide(int fn, void *ra) {
 #define NEXT(fn) static __typeof__(fn) *real; if (!real) real = (__typeof__(fn) *) dlsym(RTLD_NEXT, #fn)
 #define RA __builtin_return_address(0)
 
-FILE *fopen(const char *p, const char *m) { NEXT(fopen); int e = decide(0, RA); if (e) { errno = e; return NULL; } return real(p, m); }
+FILE *fopen(const char *p, const char *m) {
+    NEXT(fopen); int e = decide(0, RA); if (e) { errno = e; return NULL; }
+    prod_init();
+    if (prod_from[0] && p && !strcmp(p, prod_from)) { Dl_info di; if (dladdr(RA, &di) && di.dli_fname && strstr(di.dli_fname, objname)) return real(prod_to, m); }
+    return real(p, m);
+}
 int open(const char *p, int fl, ...) {
     NEXT(open);
     mode_t md = 0; if (fl & (O_CREAT | O_TMPFILE)) { va_list ap; va_start(ap, fl); md = (mode_t) va_arg(ap, int); va_end(ap); }
@@ -98,7 +127,13 @@ int open(const char *p, int fl, ...) {
     return real(p, fl, md);
 }
 int socket(int d, int t, int pr) { NEXT(socket); int e = decide(2, RA); if (e) { errno = e; return -1; } return real(d, t, pr); }
-int connect(int fd, const struct sockaddr *a, socklen_t l) { NEXT(connect); int e = decide(3, RA); if (e) { errno = e; return -1; } return real(fd, a, l); }
+int connect(int fd, const struct sockaddr *a, socklen_t l) {
+    NEXT(connect);
+    { Dl_info di; struct verif_expect *ex = EX();       /* a descriptor of the library that another thread's / a forked child's exec would inherit right now? */
+      if (ex && dladdr(RA, &di) && di.dli_fname && (init(), strstr(di.dli_fname, objname))) {
+          int fl = fcntl(fd, F_GETFD); char b[96]; snprintf(b, sizeof b, "cloexec\t%d\tconnect\t%d\n", ex->call_index, fl >= 0 && (fl & FD_CLOEXEC) ? 1 : 0); wr(ex->rec_fd, b); } }
+    int e = decide(3, RA); if (e) { errno = e; return -1; } return real(fd, a, l);
+}
 ssize_t send(int fd, const void *b, size_t n, int fl) { NEXT(send); int e = decide(4, RA); if (e) { errno = e; return -1; } return real(fd, b, n, fl); }
 ssize_t write(int fd, const void *b, size_t n) { NEXT(write); int e = decide(5, RA); if (e) { errno = e; return -1; } return real(fd, b, n); }
 size_t fread(void *b, size_t s, size_t n, FILE *f) { NEXT(fread); int e = decide(6, RA); if (e) { errno = e; return 0; } return real(b, s, n, f); }
